@@ -18,7 +18,9 @@ LEVEL_TEXT = (
 LEVEL_NOTE = (
     "Trusted: Lean kernel + Mathlib (axioms propext, Classical.choice, Quot.sound); tools/extract numeric translator (its output "
     "is also run at Float against the Go code, rel. tol. 1e-9); float64 rounding and math.Exp; gonum Eigen/Inverse (residuals "
-    "measured per case); textbook rate matrices transcribed in lean/Gv/Spec/SubstModels.lean."
+    "measured per case); textbook rate matrices transcribed in lean/Gv/Spec/SubstModels.lean. Two genuine defects of the unchanged tree "
+    "are recorded in known_findings.jsonl (repeated eigenvalue returned as a complex pair -> garbage P(t) for F81 and F81-like "
+    "TN93/GTR points; protein frequency tables not normalised)."
 )
 TECHNIQUE = "Lean 4 + Mathlib proof over R of regenerated numeric code (T2) + differential correspondence at Float + numeric law checks"
 LEAN_MODULES = ["Gv.Props.C18"]
@@ -117,7 +119,7 @@ def gen(rng, tier):
     _seen_models.clear()
     quick = tier == "quick"
     npair = 6 if quick else 14
-    nrand = 30 if quick else 150
+    nrand = 30 if quick else 600
     # JC: every pair of the grid (no parameters)
     for s in TS:
         for t in TS:
@@ -176,7 +178,10 @@ def check(tier, seed):
 
 def _sections(impl):
     out = {}
-    for sec in (impl or "").split(";"):
+    impl = impl or ""
+    if impl.startswith("ok "):
+        impl = impl[3:]
+    for sec in impl.split(";"):
         k, _, v = sec.partition("=")
         out[k] = v.split(",")
     return out
